@@ -179,7 +179,7 @@ fn lat_member_attrs(t: &mut Tape, tys: &[&str], pool: &[&'static str], child_pat
     let mut s = String::new();
     let n = t.weighted(&[2, 4, 4, 2]);
     for _ in 0..n {
-        match t.weighted(&[12, 1, 1, 1]) {
+        match t.weighted(&[12, 1, 1, 1, 1]) {
             0 => {
                 let name = if !pool.is_empty() && t.chance(2, 3) { *t.pick(pool) } else { *t.pick(&crate::dsl::MEMBER_MAP_NAMES) };
                 let ded = if t.chance(1, 5) { format!("{}| ", t.pick(tys)) } else { String::new() };
@@ -203,13 +203,18 @@ fn lat_member_attrs(t: &mut Tape, tys: &[&str], pool: &[&'static str], child_pat
             1 => s.push_str(*t.pick(&["#[ghost] ", "#[ghost({ 1 })] ", "#[o2o(ghost_owned({ 2 }))] ", "#[o2o(ghost_ref(Foo| { 3 }))] "])),
             2 => {
                 if !child_paths.is_empty() {
-                    let _ = write!(s, "#[child({})] ", t.pick(child_paths));
+                    let ded = if t.chance(1, 4) { format!("{}| ", t.pick(tys)) } else { String::new() };
+                    let _ = write!(s, "#[child({}{})] ", ded, t.pick(child_paths));
                     labels.push("lattice:child".into());
                     labels.push("child:path".into());
                 }
             }
+            4 => {
+                s.push_str(*t.pick(&["#[o2o(as_type(i64))] ", "#[o2o(as_type(nm, i64))] ", "#[o2o(as_type(1, i64))] ", "#[o2o(as_type(Foo| i64))] ", "#[o2o(repeat)] ", "#[o2o(stop_repeat)] ", "#[o2o(skip_repeat)] ", "#[o2o(repeat(map, ghost))] "]));
+                labels.push("lattice:as_type-or-repeat".into());
+            }
             _ => {
-                let p = *t.pick(&["#[parent] ", "#[parent(x, [map(y)] z)] ", "#[parent(Foo| 0, 1)] "]);
+                let p = *t.pick(&["#[parent] ", "#[parent(x, [map(y)] z)] ", "#[parent(Foo| 0, 1)] ", "#[parent([parent(x)] inner: Inner)] ", "#[parent(x, [parent(y, [from(z)] w)] inner)] ", "#[parent([parent(0)] 1: Inner)] ", "#[parent(Bar| [parent([parent(x)] a: A)] b: B)] "]);
                 if p == "#[parent] " {
                     labels.push("parent:bare".into());
                 }
@@ -247,6 +252,14 @@ pub fn gen_lattice(t: &mut Tape) -> (String, Vec<String>) {
         labels.push("lattice:fallible-into-existing".into());
     }
     let pool = relatives(&trait_names);
+    // counterpart-only members: struct-level ghosts by name, by index or below a child path, for any counterpart
+    if t.chance(1, 5) {
+        let ded = if t.chance(1, 3) { format!("{}| ", t.pick(&tys)) } else { String::new() };
+        let name = *t.pick(&["ghosts", "ghosts", "ghosts_owned", "ghosts_ref"]);
+        let entries = *t.pick(&["g: { 1 }", "0: { 1 }", "2: { 1 }, g: { 2 }", "a.g: { 1 }", "a.0: { 1 }", "a.b.g: { 1 }", "g: { @.f0 }, 1: { 2 }"]);
+        let _ = write!(s, "#[{}({}{})] ", name, ded, entries);
+        labels.push("lattice:ghosts".into());
+    }
     let mut child_paths: Vec<&str> = vec![];
     if shape < 2 && t.chance(2, 5) {
         let deep = t.coin();
@@ -285,14 +298,20 @@ pub fn gen_lattice(t: &mut Tape) -> (String, Vec<String>) {
             let nv = 1 + t.below(2);
             for v in 0..nv {
                 if t.chance(1, 2) {
-                    let _ = write!(s, "#[type_hint({})] ", LAT_HINTS[1 + t.below(3)].trim_start());
+                    let ded = if t.chance(1, 4) { format!("{}| ", t.pick(&tys)) } else { String::new() };
+                    let _ = write!(s, "#[type_hint({}{})] ", ded, LAT_HINTS[1 + t.below(3)].trim_start());
+                }
+                if t.chance(1, 8) {
+                    let ded = if t.chance(1, 3) { format!("{}| ", t.pick(&tys)) } else { String::new() };
+                    let _ = write!(s, "#[ghosts({}{})] ", ded, t.pick(&["g: { 1 }", "0: { 1 }", "1: { 1 }, g: { 2 }"]));
+                    labels.push("lattice:variant-ghosts".into());
                 }
                 if t.chance(1, 3) {
                     let name = *t.pick(&crate::dsl::MEMBER_MAP_NAMES);
                     let _ = write!(s, "#[{}(W{})] ", name, v);
                 }
                 if t.chance(1, 6) {
-                    s.push_str(*t.pick(&["#[literal(1)] ", "#[pattern(_)] ", "#[ghost] "]));
+                    s.push_str(*t.pick(&["#[literal(1)] ", "#[pattern(_)] ", "#[ghost] ", "#[literal(Foo| 1)] ", "#[pattern(Bar| 1 | 2)] ", "#[ghost(Foo| { S::V0 })] "]));
                 }
                 let vshape = t.below(3);
                 let nf = 1 + t.below(2);
@@ -335,7 +354,7 @@ impl Part for Lattice {
         "C16"
     }
     fn rule(&self) -> String {
-        "Instruction-selection lattice: 1-2 trait instructions of any of the 24 spellings with any hint (none, {}, (), Unit), optional `return` / `..update`, optional #[child_parents] with one or two levels of any hint, on a named struct, a tuple struct or an enum with 1-2 variants (optional type_hint / rename / literal / pattern / ghost); every member carries 0-3 instructions: a mapping of any of the 21 spellings (two in three drawn from the spellings related to the trait instructions by a change of fallibility or into <-> into_existing) with or without dedication, counterpart name / index and action, a ghost, a #[child], a #[parent]. Same oracle and non-triviality rule as `wild`.".into()
+        "Instruction-selection lattice: 1-2 trait instructions of any of the 24 spellings with any hint (none, {}, (), Unit), optional `return` / `..update`, optional #[child_parents] with one or two levels of any hint, optional struct-level / variant-level #[ghosts] (by name, index or child path, with or without dedication), on a named struct, a tuple struct or an enum with 1-2 variants (optional type_hint / rename / literal / pattern / ghost, with or without dedication); every member carries 0-3 instructions: a mapping of any of the 21 spellings (two in three drawn from the spellings related to the trait instructions by a change of fallibility or into <-> into_existing) with or without dedication, counterpart name / index and action, a ghost, a #[child], a #[parent] (bare, parameterised, nested typed / untyped), as_type, repeat / stop_repeat / skip_repeat. Same oracle and non-triviality rule as `wild`.".into()
     }
     fn cases(&self, tier: Tier) -> usize {
         match tier {
